@@ -17,8 +17,8 @@ pub fn exec(it: &mut Interp, toks: &[&str], out: &mut Vec<String>) -> bool {
 }
 
 /// The group of the given ids, built through one of the crate's public constructors (chosen by
-/// the ids themselves, so that a replay builds it the same way): `From<Vec<u32>>`,
-/// `From<Vec<HpoTermId>>` (as given / ascending with repeated elements), `FromIterator<HpoTermId>`
+/// the ids themselves, so that a replay builds it the same way): `From<Vec<u32>>` and
+/// `From<Vec<HpoTermId>>` (as given with non-adjacent repeats / ascending with repeated elements), `FromIterator<HpoTermId>`
 /// (as given with the largest id once more at the end / ascending with repeats), `insert` by `insert`.
 /// All of them yield the same sorted duplicate-free set (C12).
 pub fn mk_group(ids: &[u32]) -> HpoGroup {
@@ -35,8 +35,8 @@ pub fn mk_group(ids: &[u32]) -> HpoGroup {
     };
     let h = ids.iter().fold(ids.len() as u64, |a, x| (a * 31 + u64::from(*x)) % 1_000_003);
     match h % 6 {
-        0 => HpoGroup::from(ids.to_vec()),
-        1 => HpoGroup::from(tid(ids)),
+        0 => HpoGroup::from(with_repeats(ids)),
+        1 => HpoGroup::from(tid(&with_repeats(ids))),
         2 => {
             let mut w = with_repeats(ids);
             w.sort_unstable();
@@ -131,6 +131,35 @@ fn group_ops(it: &mut Interp, toks: &[&str], out: &mut Vec<String>) -> bool {
             let g = reg(it, r);
             // len(), iter(), is_empty()
             out.push(format!("g {} {} empty={}", g.len(), term_ids(&g), b(g.is_empty())));
+            // the iterator through the std adaptors: skip / step_by / nth-then-next / count / last / size_hint
+            let all: Vec<u32> = g.iter().map(|x| x.as_u32()).collect();
+            let mut fails: Vec<String> = vec![];
+            for k in [0usize, 1, 2, 5, 31] {
+                let sk: Vec<u32> = g.iter().skip(k).map(|x| x.as_u32()).collect();
+                if sk != all.iter().skip(k).copied().collect::<Vec<u32>>() {
+                    fails.push(format!("iter().skip({k})"));
+                }
+                let st: Vec<u32> = g.iter().step_by(k + 1).map(|x| x.as_u32()).collect();
+                if st != all.iter().step_by(k + 1).copied().collect::<Vec<u32>>() {
+                    fails.push(format!("iter().step_by({})", k + 1));
+                }
+                let mut i = g.iter();
+                let a = i.nth(k).map(|x| x.as_u32());
+                let bb = i.next().map(|x| x.as_u32());
+                if a != all.get(k).copied() || bb != all.get(k + 1).copied() {
+                    fails.push(format!("iter().nth({k}) then next()"));
+                }
+            }
+            if g.iter().count() != all.len() || g.iter().last().map(|x| x.as_u32()) != all.last().copied() {
+                fails.push("iter().count() / last()".to_string());
+            }
+            let (lo, hi) = g.iter().size_hint();
+            if lo > all.len() || hi.is_some_and(|h| h < all.len()) {
+                fails.push(format!("iter().size_hint() = ({lo}, {hi:?}) for {} ids", all.len()));
+            }
+            if !fails.is_empty() {
+                out.push(format!("oracle FAIL group-iterator {}", fails.join(";").replace(' ', "_")));
+            }
             true
         }
         ["ghas", r, x] => {
